@@ -18,6 +18,8 @@ Line protocol of the C20 model (one s-expression in, one out).
   (ppcom COM)               -> STR                            the lines of print_com joined by newlines
   (lex STR)                 -> (ok (TOK ...)) | err           TOK = (id x) | (num n) | (sym s)
   (nameok x)                -> T | F
+  (evalsem FUEL COM STATE (x ...)) -> (ok (RULE ...) (n ...)) | none    rule names of the derivation (pre-order), final state
+  (printable COM)           -> (printableCom c   parseCom (ppCom c) == normNegCom c)   each T | F
   (lexcom COM)              -> (lexOKc  lex(ppCom c)==comToks c)   each T | F
   (parsecond STR)           -> (ok E) | err
   (parsecom STR)            -> (ok COM) | err
@@ -171,6 +173,19 @@ def handle (line : String) : String :=
   | some (.list [.atom "lexcom", c]) =>
     match comOf c with
     | some c => toString (Sexp.list [Sexp.ofBool (lexOKc c), Sexp.ofBool (lex (ppCom c) == some (comToks c))])
+    | none => "bad-op"
+  | some (.list [.atom "evalsem", fuel, c, st, .list vars]) =>
+    match fuel.toNat?, comOf c, stateOf st with
+    | some f, some c, some s =>
+      match evalSem f c s with
+      | some (dv, s') => toString (Sexp.list [.atom "ok", .list (dv.rules.map Sexp.atom), .list (vars.map fun
+          | .atom x => Sexp.ofInt (s' (dec x))
+          | _ => .atom "?")])
+      | none => "none"
+    | _, _, _ => "bad-op"
+  | some (.list [.atom "printable", c]) =>
+    match comOf c with
+    | some c => toString (Sexp.list [Sexp.ofBool (printableCom c), Sexp.ofBool (parseCom (ppCom c) == some (normNegCom c))])
     | none => "bad-op"
   | some (.list [.atom "nameok", .atom x]) => toString (Sexp.ofBool (nameOK (dec x)))
   | some (.list [.atom "ppcom", c]) =>
